@@ -399,7 +399,25 @@ func scenario(k int) {
 						// --- UDP
 						u := rfc.UDP{SrcPort: sport, DstPort: dport, Payload: pl}
 						ip := rfc.IPv4{TTL: 64, Proto: rfc.ProtoUDP, ID: uint16(n), Src: s4, Dst: d4, Payload: u.Bytes4(s4, d4, true)}
-						w.links[nic].Inject(ipv4.ProtocolNumber, ip.Bytes(true), "")
+						if n%4 == 1 {
+							// the datagram arrives in two fragments, behind the first fragment of a datagram
+							// from ANOTHER host that happens to use the same identification (and never
+							// completes): what a socket gets is decided by the real sender's addresses
+							var o4 [4]byte
+							copy(o4[:], foreign)
+							decoy := rfc.UDP{SrcPort: 6000 + sport, DstPort: dport, Payload: []byte(fmt.Sprintf("dcy-%d-%d", k, n))}.Bytes4(o4, d4, true)
+							whole := ip.Payload
+							for _, f := range []rfc.IPv4{
+								{TTL: 64, Proto: rfc.ProtoUDP, ID: uint16(n), Src: o4, Dst: d4, Flags: 1, Payload: decoy[:8]},
+								{TTL: 64, Proto: rfc.ProtoUDP, ID: uint16(n), Src: s4, Dst: d4, Flags: 1, Payload: whole[:8]},
+								{TTL: 64, Proto: rfc.ProtoUDP, ID: uint16(n), Src: s4, Dst: d4, FragOff: 1, Payload: whole[8:]},
+							} {
+								w.links[nic].Inject(ipv4.ProtocolNumber, f.Bytes(true), "")
+							}
+							run.Count("udp_packets_fragmented_behind_a_foreign_fragment", 1)
+						} else {
+							w.links[nic].Inject(ipv4.ProtocolNumber, ip.Bytes(true), "")
+						}
 						want := w.expect(socks, "udp", nic, dst, dport, src, sport)
 						desc := fmt.Sprintf("UDP %v:%d > %v:%d arriving on NIC %d", []byte(src), sport, []byte(dst), dport, nic)
 						unassigned := !w.assigned[nic][dst] && w.members[nic][dst] == 0
